@@ -1,9 +1,15 @@
 package main
 
 import (
+	"github.com/bluenviron/gomavlib/v3"
+	"github.com/bluenviron/gomavlib/v3/pkg/dialect"
 	"github.com/bluenviron/gomavlib/v3/pkg/frame"
 	"github.com/bluenviron/gomavlib/v3/pkg/message"
 	"github.com/bluenviron/gomavlib/v3/pkg/streamwriter"
+	"math/rand"
+	"strings"
+	"time"
+	"verifharness/scn"
 
 	"verifharness/hx"
 )
@@ -74,5 +80,64 @@ func genC09(o *hx.Out, tier string) {
 			class = "history frame.Writer.WriteMessage"
 		}
 		o.Add(class, impl, append(append([]string{"swrite"}, c.fields()...), ops)...)
+	}
+	genC09Node(o, r, d, drw, tier)
+}
+
+// genC09Node: the same property through a Node — frames the node originates on a channel carry
+// the configured version and ids, gapless sequence numbers and the right checksum (messages with
+// extension fields and trailing zeros included: version 1 output omits extensions).
+func genC09Node(o *hx.Out, r *rand.Rand, d *dialect.Dialect, drw *dialect.ReadWriter, tier string) {
+	nn := 12
+	if tier == "thorough" {
+		nn = 150
+	}
+	for i := 0; i < nn; i++ {
+		c := wconf{v2: i%2 == 0, sys: byte(1 + r.Intn(255)), comp: byte(r.Intn(256)), dname: "common", drw: drw}
+		pipe := scn.NewPipe("c09")
+		ver := gomavlib.V1
+		if c.v2 {
+			ver = gomavlib.V2
+		}
+		node, err := gomavlib.NewNode(gomavlib.NodeConf{Endpoints: []gomavlib.EndpointConf{gomavlib.EndpointCustom{ReadWriteCloser: pipe}},
+			Dialect: d, OutVersion: ver, OutSystemID: c.sys, OutComponentID: c.comp, HeartbeatDisable: true})
+		if err != nil {
+			o.Add("node originated", "NODE-INIT-FAILED", append(append([]string{"swrite"}, c.fields()...), "-")...)
+			continue
+		}
+		opened := make(chan struct{})
+		go func() {
+			first := true
+			for evt := range node.Events() {
+				if _, ok := evt.(*gomavlib.EventChannelOpen); ok && first {
+					first = false
+					close(opened)
+				}
+			}
+		}()
+		select {
+		case <-opened:
+		case <-time.After(scn.Timeout):
+		}
+		n := 10 + r.Intn(40) // below the channel's queue capacity
+		var opl []string
+		for j := 0; j < n; j++ {
+			var m message.Message
+			for {
+				m = hx.RandMessage(r, d.Messages[r.Intn(len(d.Messages))], r.Intn(3))
+				if c.v2 || m.GetID() <= 255 {
+					break
+				}
+			}
+			opl = append(opl, hx.Msg(m)+"@0")
+			node.WriteMessageAll(m) //nolint:errcheck
+		}
+		pipe.WaitWrites(func(ws [][]byte) bool { return len(ws) >= n })
+		var outs []string
+		for _, w := range pipe.Writes() {
+			outs = append(outs, "ok "+hx.Hex(w))
+		}
+		node.Close()
+		o.Add("node originated", strings.Join(outs, ";"), append(append([]string{"swrite"}, c.fields()...), strings.Join(opl, " "))...)
 	}
 }
